@@ -44,7 +44,9 @@ PROPS["C18"] = dict(
                 "(the coded cell is the exact cell of the prepared point or, only when the rounded product is exactly the next integer, its upper "
                 "neighbour: class F2), gars_scale_shape, gars_scale_exact_of_representable; integer round trips digits_readback (every table), "
                 "gars_decode_encode (all cells, precisions, centerp) and geohash_decode_encode / geohash_decode_encode46 (all cells, all lengths). "
-                "Not proved: scale_contains for the division-based Geohash/OSGB scale steps; decode∘encode for Georef/OSGB (correspondence only)."),
+                "geohash_scale_contains (division-based scale step: Dy.divTo is proved to be the correctly rounded quotient, Proofs/DivTo.lean divTo_isRN; the "
+                "constants 180/2^45, 90/2^45, the pole adjustment and the addition of 2^45 are proved exact). "
+                "Not proved: scale_contains for the multi-step OSGB scale; decode∘encode for Georef/OSGB (correspondence only)."),
     level_note=("alphabets and integer constants of all four classes regenerated from the sources each run; hand-written models of Forward/Reverse; "
                 "pow(10,k) and integer→double conversions assumed exact (they are, for the ranges used)"),
     technique="Lean 4 proof of the integer codecs + exact-arithmetic correspondence of the scaling step and decoders against the implementation",
